@@ -7,6 +7,8 @@ import common
 import gen
 import progcases
 
+TWINS = ['weights']      # harness/twins.py: which part of a twin text carries the difference
+
 N = {"quick": 300, "thorough": 8000}
 
 
